@@ -90,6 +90,47 @@ static const struct rshell_command_table R_TABLES[] = {{R_T1, 0}, {R_T2, 1}, {nu
 static const struct mshell_command *const ML_TABLES[] = {M_T1, ML_T2, nullptr};
 static const struct rshell_command_table RL_TABLES[] = {{R_T1, 0}, {RL_T2, 1}, {nullptr, 0}};
 
+// ---------------------------------------------------------------- tables for two-call histories
+// the same names bound to other handlers (ids 3, 4), or absent
+static int m_x(int argc, char **argv)
+{
+    record(3, argc, argv);
+    return 43;
+}
+static int m_y(int argc, char **argv)
+{
+    record(4, argc, argv);
+    return 44;
+}
+static int r_x(int argc, char **argv, char *, int)
+{
+    record(3, argc, argv);
+    return 43;
+}
+static int r_y(int argc, char **argv, char *, int)
+{
+    record(4, argc, argv);
+    return 44;
+}
+static const struct mshell_command MH1[] = {{N_A, m_x, nullptr}, {N_AB, m_y, nullptr}, {nullptr, nullptr, nullptr}};
+static const struct mshell_command MH4[] = {{nullptr, nullptr, nullptr}};
+static const struct rshell_command RH1[] = {{N_A, r_x, nullptr}, {N_AB, r_y, nullptr}, {nullptr, nullptr, nullptr}};
+static const struct rshell_command RH4[] = {{nullptr, nullptr, nullptr}};
+// table k: 0 = {a->0, ab->1}, 1 = {a->3, ab->4}, 2 = {ab->1}, 3 = {a->0}, 4 = {}
+static const struct mshell_command *const MH[5] = {M_BOTH, MH1, M_T2, M_T1, MH4};
+static const struct rshell_command *const RH[5] = {R_BOTH, RH1, R_T2, R_T1, RH4};
+static const struct mshell_command *const MHL[5][3] = {{M_T1, M_T2, nullptr}, {MH1, nullptr, nullptr}, {MH4, M_T2, nullptr}, {M_T1, MH4, nullptr}, {MH4, nullptr, nullptr}};
+static const struct rshell_command_table RHL[5][3] = {{{R_T1, 0}, {R_T2, 0}, {nullptr, 0}},
+                                                      {{RH1, 0}, {nullptr, 0}, {nullptr, 0}},
+                                                      {{RH4, 0}, {R_T2, 0}, {nullptr, 0}},
+                                                      {{R_T1, 0}, {RH4, 0}, {nullptr, 0}},
+                                                      {{RH4, 0}, {nullptr, 0}, {nullptr, 0}}};
+static int history_handler(int table, const Str &word)
+{
+    static const int A[5] = {0, 3, -1, 0, -1}, AB[5] = {1, 4, 1, -1, -1};
+    return word == "a" ? A[table] : word == "ab" ? AB[table] : -1;
+}
+
 // ---------------------------------------------------------------- reference for one line
 struct LineRef
 {
@@ -153,10 +194,10 @@ static void ctx(const char *fn, const LineRef &ref, const Str &s, const char *su
     mc::crash_context("C19.%s.memory%s%s", fn, (ref.runs.empty() && !s.empty()) ? ".blank_line" : "", suffix);
 }
 
-static void check_shells(const Str &s, int which_family, bool longtab = false)
+static void check_shells(const Str &s, int which_family, bool longtab = false, const char *sfx_in = nullptr)
 {
     LineRef ref = line_ref(s, longtab);
-    const char *sfx = longtab ? ".long_input" : "";
+    const char *sfx = sfx_in ? sfx_in : longtab ? ".long_input" : "";
     if (which_family == 0)
     {
         {
@@ -363,5 +404,60 @@ MC_INIT
         check_shells(s, 0, true);
         check_shells(s, 1, true);
         mc::more_cases(4, 4);
+    });
+
+    // ---------------------------------------------------------------- bytes >= 0x80 in command lines
+    // 0x89 / 0xA0 / ... are not white space and not part of any command name: "a\xA0" is one word that names nothing
+    mc::add_check("high_bytes_lines", [] {
+        static const char HB[9] = {' ', 'a', 'b', '\t', (char)0x80, (char)0x89, (char)0xA0, (char)0xE0, (char)0xFF};
+        Str s = enum_str(HB, 9, mc::thorough() ? 6 : 5, 2);
+        mc::describe("bytes>=0x80: line=%s through argvc_internal_split and the four dispatchers", esc(s).c_str());
+        bool high = false;
+        for (unsigned char c : s)
+            high |= c >= 0x80;
+        if (high)
+            mc::nontrivial();
+        check_argvc_split(s, {1, 10}, ".high_bytes");
+        check_shells(s, 0, false, ".high_bytes");
+        check_shells(s, 1, false, ".high_bytes");
+        mc::more_cases(4, high ? 4 : 0);
+    });
+
+    // ---------------------------------------------------------------- histories of two calls with different tables
+    // A dispatcher is a function of (line, table): the second call must not remember the first.  One case = one
+    // dispatcher x (table, line) x (table, line) in a process in which no dispatcher has run yet.
+    mc::add_check("dispatch_history", [] {
+        static const char *LINES[5] = {"a", "ab", "a b", "b", " "};
+        static const char *FN[4] = {"mshell_execute", "mshell_tables_execute", "rshell_execute", "rshell_tables_execute"};
+        int u = mc::choose(4 * 25 * 25);
+        mc::request_restart(); // hidden statics survive in the process: every case starts in a fresh worker
+        int d = u / 625, k[2] = {(u / 125) % 5, (u / 25) % 5}, l[2] = {(u / 5) % 5, u % 5};
+        mc::describe("%s(%s, table %d) then %s(%s, table %d); tables: 0={a->0,ab->1} 1={a->3,ab->4} 2={ab->1} 3={a->0} 4={}", FN[d],
+                     esc(LINES[l[0]]).c_str(), k[0], FN[d], esc(LINES[l[1]]).c_str(), k[1]);
+        if (k[0] != k[1])
+            mc::nontrivial();
+        for (int call = 0; call < 2; call++)
+        {
+            Str s = LINES[l[call]];
+            LineRef ref = line_ref(s);
+            ref.which = ref.ntok ? history_handler(k[call], ref.toks[0]) : -1;
+            CS b(s);
+            Exact out(4, 1);
+            g_calls.clear();
+            g_line = b.p;
+            int ret = -7, rc;
+            mc::crash_context("C19.%s.memory.history", FN[d]);
+            if (d == 0)
+                rc = mshell_execute(b.p, MH[k[call]], &ret);
+            else if (d == 1)
+                rc = mshell_tables_execute(b.p, MHL[k[call]], &ret);
+            else if (d == 2)
+                rc = rshell_execute(b.p, RH[k[call]], &ret, 0, out.p, (int)out.n);
+            else
+                rc = rshell_tables_execute(b.p, RHL[k[call]], &ret, out.p, (int)out.n);
+            mc::crash_context("C19.harness");
+            check_dispatch(FN[d], s, ref, 0, rc, call ? ".second_call" : ".first_call");
+        }
+        mc::more_cases(1, k[0] != k[1] ? 1 : 0);
     });
 }
